@@ -1,20 +1,35 @@
 #!/bin/bash
-# Re-evaluate every seeded change in /verif/seeded against the check of its own
-# property (quick tier), N at a time (default 4). One summary line per change:
-#   ALLSEEDED <name> property=<id> exit=<rc> expected=<caught|missed>
-# Scratch worktrees live under /tmp and are removed by run_seeded.sh.
+# Re-evaluate every seeded change in seeded/ against the check of its own property and the
+# checks its meta.json names under caught_by (quick tier), N at a time (default 4). One
+# summary line per change:
+#   ALLSEEDED <name> property=<id> checks=<ids> fired=<ids that exit 1> expected=<caught|missed>
+# Scratch worktrees live under /tmp and are removed by run_seeded.sh. Works from a copy of
+# /verif as well (vp run): everything is relative to this script.
 set -u
 N="${1:-4}"
-cd /verif
+cd "$(dirname "$(readlink -f "$0")")/.."; VROOT="$(pwd)"
 mkdir -p work/allseeded
 one() {
   d="$1"
   name=$(basename "$d")
+  checks=$(python3 - "$d/meta.json" <<'EOF'
+import json, re, sys
+m = json.load(open(sys.argv[1]))
+ids = [m['property']]
+for c in m.get('caught_by', []):
+    ids += re.findall(r'\bC\d\d\b', c.split('(')[0])
+seen = []
+for i in ids:
+    if i not in seen:
+        seen.append(i)
+print(' '.join(seen))
+EOF
+)
   prop=$(python3 -c "import json,sys;print(json.load(open(sys.argv[1]))['property'])" "$d/meta.json")
   exp=$(python3 -c "import json,sys;print('caught' if json.load(open(sys.argv[1]))['caught_by'] else 'missed')" "$d/meta.json")
-  selftest/run_seeded.sh "$d/patch.diff" "$name" "$prop" > "work/allseeded/$name.log" 2>&1
-  rc=$(grep -o "check $prop exit=[0-9]*" "work/allseeded/$name.log" | grep -o "[0-9]*$")
-  echo "ALLSEEDED $name property=$prop exit=${rc:-?} expected=$exp"
+  selftest/run_seeded.sh "$d/patch.diff" "$name" $checks > "work/allseeded/$name.log" 2>&1
+  fired=$(grep -o "check C[0-9][0-9] exit=1" "work/allseeded/$name.log" | awk '{print $2}' | tr '\n' ',')
+  echo "ALLSEEDED $name property=$prop checks=$(echo $checks | tr ' ' ',') fired=${fired:-none} expected=$exp"
 }
 export -f one
 ls -d seeded/*/ | xargs -P "$N" -I{} bash -c 'one {}'
